@@ -345,7 +345,13 @@ func (s *Sim) judgeLive(st *Step, dk DocKey, changed bool, nd *Doc) {
 			if st.Ex.DCJSON || st.Ex.Accept == -1 {
 				wj = nil
 			}
-			CompareEvent("event", "C08", e, &st.PostObs, wj, st.CollID, f.KeysOnly, s.report, fmt.Sprintf("feed %d, %s after %s", fi, dk, st.Op.Variant()))
+			rep := s.report
+			if st.Pre.Tomb() {
+				// "any write that gives a tombstone a body yields a live document with none of the tombstone's xattrs", and
+				// every observer - the live event included - must agree on that (C05)
+				rep = func(props []string, kind, msg string) { s.report(uniq(append(props, "C05")...), kind, msg) }
+			}
+			CompareEvent("event", "C08", e, &st.PostObs, wj, st.CollID, f.KeysOnly, rep, fmt.Sprintf("feed %d, %s after %s", fi, dk, st.Op.Variant()))
 		}
 		if n != wantN {
 			kind := "event.count"
